@@ -5,6 +5,9 @@ sys.path.insert(0, os.path.dirname(os.path.abspath(__file__)))
 CHECKS, METAS = {}, {}
 for f in sorted(os.listdir(_d)):
     if f.startswith("C") and f.endswith(".py"):
-        m = importlib.import_module("checks." + f[:-3])
-        CHECKS[f[:-3]] = m.SPEC
-        METAS[f[:-3]] = m.META
+        try:
+            m = importlib.import_module("checks." + f[:-3])
+            CHECKS[f[:-3]] = m.SPEC
+            METAS[f[:-3]] = m.META
+        except Exception as e:  # a broken module must not take the other checks down
+            sys.stderr.write("registry: cannot load %s: %s\n" % (f, e))
